@@ -675,6 +675,43 @@ def _all_failures(case):
             fails.append(Fail(_consumed_sig(m) + '/second-call', f'after the second call, {m.path}: {m.detail}'))
         if not mutated and (c1.hash != c2.hash or rv.to_tree(c1) != rv.to_tree(c2)):
             fails.append(Fail('twice/cell-differs', f'{c1.hash.hex()} != {c2.hash.hex()} with unmodified inputs'))
+    # (F) parsed values are independent of the cell they were parsed from: reading from a parsed slice / storing into a parsed
+    # builder does not change the serialised stack (second parse equals the first reading; the bytes of the cell are unchanged)
+    if not fails and not mutated:
+        from pytoniq_core.boc.slice import Slice as _Slice
+        from pytoniq_core.boc.builder import Builder as _Builder
+        from pytoniq_core.boc.cell import Cell as _Cell
+        ok, boc_before = call(c1.to_boc)
+        ok1, back1 = call(VmStack.deserialize, c1.begin_parse())
+        if ok and ok1:
+            first_reading = [norm(x) for x in back1]
+
+            def use(x):
+                if isinstance(x, _Slice):
+                    call(lambda: x.load_bits(min(8, len(x.bits))))
+                    call(lambda: x.load_ref())
+                elif isinstance(x, _Builder):
+                    call(lambda: x.store_bits('101'))
+                elif hasattr(x, 'list') and isinstance(getattr(x, 'list'), list):
+                    for y in x.list:
+                        use(y)
+            for x in back1:
+                use(x)
+            ok2, back2 = call(VmStack.deserialize, c1.begin_parse())
+            if not ok2:
+                fails.append(Fail(f'parsed-values-alias-the-cell/second-parse-raises/{exc_sig(back2)}', repr(back2)))
+            else:
+                for m in diff([norm(x) for x in back2], first_reading):
+                    fails.append(Fail(f'parsed-values-alias-the-cell/{m.cls}', f'after reading from the parsed values, a second parse of the '
+                                      f'same cell gives {m.path}: {m.detail}'))
+                    break
+            ok3, boc_after = call(c1.to_boc)
+            if ok3 and bytes(boc_after) != bytes(boc_before):
+                fails.append(Fail('parsed-values-alias-the-cell/serialisation-of-the-stack-cell-changed', ''))
+            else:
+                okp, reparsed = call(_Cell.one_from_boc, boc_before)
+                if okp and reparsed.hash != c1.hash:
+                    fails.append(Fail('parsed-values-alias-the-cell/cell-content-no-longer-matches-its-hash', ''))
     # (E) what the parser returns is itself a stack of supported values: serialising it again gives the same cell. Not asserted
     # when a continuation carries a control-data stack or save list: the parser returns those two as a list / a dict while
     # the writer takes cells (a representation asymmetry, like a parsed slice being a Slice).
